@@ -278,6 +278,12 @@ def make_grad(shape: tuple[int, ...], dtype: torch.dtype, seed: int, kind: str, 
         t = torch.randn(shape, generator=g, dtype=torch.float64)
         if numel:
             t.view(-1)[int(torch.randint(0, numel, (1,), generator=g).item())] = float("nan")
+    elif kind in ("inf_last", "nan_last"):
+        # the last element: it lies in the remainder block of every blocked dimension (a 1x1 Kronecker factor when
+        # dim % max_preconditioner_dim == 1)
+        t = torch.randn(shape, generator=g, dtype=torch.float64)
+        if numel:
+            t.view(-1)[numel - 1] = float("inf") if kind == "inf_last" else float("nan")
     else:
         raise ValueError(kind)
     return (t * scale).to(dtype)
